@@ -1232,7 +1232,7 @@ theorem implicit_header_iff (ct : ClassTables) (path : List Char) (r : Request) 
 
 /-- the google.api.routing annotation, when present, replaces implicit routing altogether. -/
 theorem explicit_replaces_implicit (ct : ClassTables) (ps : List Param) (verbs : List (List Char)) (r : Request) :
-    header ct ⟨some ps, verbs⟩ r = explicitHeader ct ps r := rfl
+    header ct ⟨some ps, verbs, false⟩ r = explicitHeader ct ps r := rfl
 
 /-! ## Encoding (`routing_header.to_routing_header` = `urlencode(…, safe="/")`, external, T2) -/
 
@@ -1346,6 +1346,119 @@ example : (∀ c ∈ splitDots ['b','o','o','k','.','c','l','a','s','s'], c ≠ 
 
 example : encodePairs [(['k'], ['a', ' ', 'b', '/', 'c', '&', 'd'])] = ['k', '=', 'a', '+', 'b', '/', 'c', '%', '2', '6', 'd'] := by decide
 
+/-! ## Newly modelled behaviour: templates without named segment, client streaming, schema-side resolve -/
+
+/-- a template WITHOUT named segment (accepted by `to_regex`, excluded by routing.proto) matches
+exactly the values the segment scanner consumes entirely. -/
+theorem unnamed_match_iff_scan (ct : ClassTables) (ts : List Tok) (hts : dstarOnlyLast ts = true)
+    (v : List Char) (hnl : '\n' ∉ v) :
+    matchesUnnamed ct ts v = (match scanToks ts v with | some (_, []) => true | _ => false) := by
+  simp only [matchesUnnamed, pyMatch, matchAt, toRegexUnnamed]
+  rw [show (Re.bol :: mergeToks ts ++ [Re.eol]) = Re.bol :: (mergeToks ts ++ [Re.eol]) from rfl]
+  rw [m_seqR_cons, m_bol_eq]
+  simp only [if_true]
+  rw [run_toks ct [.eol] some (good_eol ct) ts hts
+    (fun _ => by intro p caps; simp [seqR, m_eol_eq]) [] v [] hnl]
+  cases hs : scanToks ts v with
+  | none => rfl
+  | some cr =>
+    obtain ⟨c, r'⟩ := cr
+    have hsplit := scanToks_split ts v c r' hs
+    cases r' with
+    | nil => simp [seqR, m_eol_eq]
+    | cons e tl =>
+      have : ¬ (e = '\n' ∧ tl = []) := by
+        intro h; apply hnl; rw [← hsplit]; simp [h.1]
+      simp [seqR, m_eol_eq, this]
+
+example : dstarOnlyLast [.lit ['p'], .star, .dstar] = true ∧ '\n' ∉ ['p', '/', 'x'] := by decide
+
+/-- a client-streaming method with explicit routing sends no routing header at all … -/
+theorem client_streaming_explicit_sends_nothing (ct : ClassTables) (ps : List Param) (verbs : List (List Char))
+    (r : Request) : header ct ⟨some ps, verbs, true⟩ r = none := rfl
+
+/-- … and with implicit routing it sends the header with an EMPTY value when the primary path has
+variables (`to_grpc_metadata(())`), nothing otherwise: no request exists when the call starts. -/
+theorem client_streaming_implicit_empty_value (ct : ClassTables) (verbs : List (List Char)) (r : Request) :
+    header ct ⟨none, verbs, true⟩ r =
+      if fieldHeaders ct (primaryPath verbs) = [] then none else some [] := by
+  simp only [header]
+  cases fieldHeaders ct (primaryPath verbs) <;> simp
+
+section AuxSchema
+
+theorem contribSchema_eq (ct : ClassTables) (r : Request) (r' : DictRequest) (p : Param)
+    (hpres : r' p.field = some (r (disambiguated p.field)))
+    (hne : ∀ k v, contribSchema ct r' p = some (k, v) → v ≠ []) :
+    contribSchema ct r' p = contrib ct r p := by
+  unfold contribSchema contrib at *
+  rw [hpres] at hne ⊢
+  simp only at hne ⊢
+  cases ht : p.template with
+  | none =>
+    simp only [ht] at hne ⊢
+    have := hne _ _ rfl
+    simp [this]
+  | some t =>
+    simp only [ht] at hne ⊢
+    unfold Model.Routing.capture
+    cases hm : pyMatch ct (toRegex t).re (r (disambiguated p.field)) with
+    | none => rfl
+    | some res =>
+      simp only [hm] at hne ⊢
+      have h := hne _ _ rfl
+      cases hg : St.group? res.caps 1 with
+      | none => rw [hg] at h; simp at h
+      | some w =>
+        rw [hg] at h
+        simp only [Option.getD_some] at h ⊢
+        simp [h]
+
+theorem foldl_congr_mem {α β} (f g : β → α → β) : ∀ (l : List α) (acc : β),
+    (∀ a ∈ l, ∀ b, f b a = g b a) → l.foldl f acc = l.foldl g acc := by
+  intro l
+  induction l with
+  | nil => intro _ _; rfl
+  | cons x xs ih =>
+    intro acc h
+    simp only [List.foldl_cons]
+    rw [h x (by simp) acc]
+    exact ih _ (fun a ha b => h a (by simp [ha]) b)
+
+end AuxSchema
+
+/-- **`RoutingRule.resolve` (schema side) agrees with the emitted chain** whenever every routing
+field is present in the request dict and no parameter yields an empty value: the expected headers
+the emitted unit tests compute are then exactly what the emitted client sends. -/
+theorem schema_resolve_agrees (ct : ClassTables) (ps : List Param) (r : Request) (r' : DictRequest)
+    (hpres : ∀ p ∈ ps, r' p.field = some (r (disambiguated p.field)))
+    (hne : ∀ p ∈ ps, ∀ k v, contribSchema ct r' p = some (k, v) → v ≠ []) :
+    resolveSchema ct ps r' = resolveExplicit ct ps r := by
+  unfold resolveSchema resolveExplicit
+  apply foldl_congr_mem
+  intro p hp acc
+  unfold stepSchema step
+  rw [contribSchema_eq ct r r' p (hpres p hp) (hne p hp)]
+
+/-- hypotheses of `schema_resolve_agrees` on `{routing_id=**}` with a non-empty value -/
+example :
+    (fun _ => some ['p', 'r', 'o', 'f'] : DictRequest) ['a'] = some ((fun _ => ['p', 'r', 'o', 'f'] : Request) (disambiguated ['a'])) ∧
+    (∀ k v, contribSchema tt (fun _ => some ['p', 'r', 'o', 'f']) ⟨['a'], some ⟨[], ['k'], [.dstar], []⟩⟩ = some (k, v) → v ≠ []) := by
+  constructor
+  · rfl
+  · intro k v h
+    have : contribSchema tt (fun _ => some ['p', 'r', 'o', 'f']) ⟨['a'], some ⟨[], ['k'], [.dstar], []⟩⟩
+        = some (['k'], ['p', 'r', 'o', 'f']) := by decide
+    rw [this] at h
+    simp only [Option.some.injEq, Prod.mk.injEq] at h
+    rw [← h.2]; simp
+
+/-- … and the two differ exactly there: on an empty field `resolve` still records `routing_id: ""`
+(the repo's own unit test expects that), the emitted client sends nothing. -/
+theorem schema_differs_on_empty :
+    resolveSchema tt [⟨['a'], some ⟨[], ['k'], [.dstar], []⟩⟩] (fun _ => some []) = [(['k'], [])] ∧
+    resolveExplicit tt [⟨['a'], some ⟨[], ['k'], [.dstar], []⟩⟩] (fun _ => []) = [] := by decide
+
 /-! ## What the hypotheses exclude, and where the real code violates the statement
 (each input is replayed on the real code by the C06 check: corpus / excluded points) -/
 
@@ -1375,7 +1488,7 @@ theorem explicit_field_keyword_regression :
 /-- an empty routing rule (annotation present, no parameters; repaired by 8b196df) sends no header,
     whatever the http rule says. -/
 theorem empty_rule_no_header (ct : ClassTables) (verbs : List (List Char)) (r : Request) :
-    header ct ⟨some [], verbs⟩ r = none := rfl
+    header ct ⟨some [], verbs, false⟩ r = none := rfl
 
 /-- outside the quantifier (hypothesis of `capture_eq_scan`): a value containing a newline is not
 matched by `.*`; the template language would accept it. -/
